@@ -654,6 +654,9 @@ def _takes_its_value_from_a_non_solution_(expression: SymbolicExpression, bindin
     not one of its solutions - in a false row of a comparison that another side of a disjunction made true. The sub-query
     has no such value: the expression has none either, there is nothing to select or to construct with.
     """
+    while isinstance(expression, Flatten):
+        # (the elements of a collection that a non-solution holds are no values either)
+        expression = expression._child_
     sub_query = _sub_query_of_(expression)
     return sub_query is not None and isinstance(bindings.get(sub_query._id_), NonSolution)
 
